@@ -81,11 +81,16 @@ func TestC06(t *testing.T) {
 		sp := spec{Mode: "stalled", NSub: rnd.Intn(3), RawPub: rnd.Intn(3) == 0, WQ: []int{1, 2, 4, 8}[rnd.Intn(4)], Steps: rnd.Intn(8)}
 		cases = append(cases, mon.CaseSpec{Name: "pub-stalled-peer", Spec: sp})
 	}
+	for i := 0; i < r.Pick(12, 300); i++ {
+		cases = append(cases, mon.CaseSpec{Name: "pub-churn", Spec: spec{Mode: "pubchurn", NSub: rnd.Intn(4), RawPub: i%2 == 0, Steps: rnd.Intn(10)}})
+	}
 	r.Run(cases, func(c *mon.Case) {
 		sp := c.Spec.(spec)
 		switch sp.Mode {
 		case "stalled":
 			runStalledPeer(c, sp)
+		case "pubchurn":
+			runPubChurn(c, sp)
 		case "seq":
 			runSeq(c, sp)
 		case "conc":
